@@ -189,6 +189,9 @@ H("c06_bc_sibdrop_forced", T, "C06", ["C06", "C12", "C04", "C05"], "thorough",
   "N=2, exact prefix 2/1, forced site = A's first clone", teardown=False)
 H("c06_bc_sibdrop_forced_n1", T, "C06", ["C06", "C12", "C04", "C05"], "thorough",
   "as c06_bc_sibdrop_forced with N=1 (the producer reaches the pinned slot at once)", "N=1, exact prefix 1/0", teardown=False)
+H("c12_bc_sibdrop_forced", T, "C12", ["C12", "C06", "C04", "C05"], "thorough",
+  "consumer handles 2->1 while the other handle is mid-receive (same scenario as c06_bc_sibdrop_forced, run by C12's check): consumer A is inside clone() when its sibling handle is dropped there (always, a concrete place), then solver-chosen up to two sends of the producer; quiescent probe/drain",
+  "N=2, exact prefix 2/1, forced site = A's first clone", teardown=False)
 H("c06_bc_sibdrop_all", T, "C12", ["C06", "C12", "C01", "C03"], "quick",
   "broadcast shared stream: consumer A's try_recv preempted everywhere by the drop of its sibling handle and a send",
   "N=2, 1 op per actor, depth 1, budget 2")
@@ -257,6 +260,18 @@ H("c12_mp_consumers_o1", L, "C12", ["C12", "C01", "C02", "C03", "C06"], "quick",
   "N=2, prefix <=2/<=1, budget 2")
 H("c12_bc_consumers_o1", L, "C12", ["C12", "C01", "C02", "C03", "C06"], "thorough",
   "broadcast: consumers of one stream 1->2->1 during traffic", "N=2, budget 2")
+PAST_END = "not in forced-site mode, or the forced site lies past the end of the outer operation"
+for _nm, _prim, _props, _w in (
+        ("c11_bc_droprace", "C11", ["C11", "C03", "C06", "C16"], "three streams: the drop of stream 0's last handle with the drop of stream 1's last handle (two removals: the second compare-exchange on the stream list fails and retries)"),
+        ("c11_bc_addrace", "C11", ["C11", "C10", "C03", "C06"], "the drop of stream 0's last handle with add_stream on stream 1"),
+        ("c10_bc_addadd", "C10", ["C10", "C11", "C03", "C06"], "add_stream on one handle of a stream with add_stream on the other handle (two additions: the retry must rebuild the new list from the list it observed)"),
+        ("c11_bc_bothhandles", "C11", ["C11", "C12", "C03", "C06"], "the last two handles of a stream dropped at the same time (exactly one of them must remove the stream)")):
+    H(_nm + "_sites", L, _prim, _props, "thorough",
+      "broadcast N=2: " + _w + ": the second list change runs ALWAYS at the k-th shared-memory operation of the first, k = 1..6, optionally (solver-chosen) followed there by a send; afterwards exactly the remaining streams limit the sender and every one of them gets every value (forced-site loop, DESIGN.md 4)",
+      "N=2, exact prefix 1/1, sites 1..6", rules=ADDRULES + [(r' @ src/scen_life', 10)], optional_covers=[PAST_END])
+    H(_nm + "_sitesq", L, _prim, _props, "thorough",
+      "broadcast N=2: " + _w + ": the second list change runs at the k-th shared-memory operation of the first, k = 1..8 (more than it has: witness), the producer's send afterwards; nothing else is symbolic - a site loop executed by the model checker; afterwards exactly the remaining streams limit the sender and every one of them gets every value",
+      "N=2, exact prefix 1/1, sites 1..8", rules=ADDRULES + [(r' @ src/scen_life', 10)])
 for fl, fln in (("mp", "mpmc"), ("bc", "broadcast")):
     for cn, w in (("senders2a", "sender handles 1->2: clone tx, the clone sends (multi-writer path); the long-lived sender - which sent in single-writer state before - sends and the consumer receives at the churning actor's preemption points"),
                   ("senders2b", "sender handles 2->1: the clone sends, the clone is dropped; the long-lived sender sends and the consumer receives at the churning actor's preemption points"),
@@ -359,6 +374,11 @@ for n, w in (("c14s_bc_poll_vs_send", "broadcast N=2: stream task polls an empty
              ("c14s_mp_poll_o1_vs_send", "mpmc N=1: the NOTIFYING side preempted: poll (free the slot, then notify) with the sink task's whole start_send into the full queue (may park) at its protocol sites")):
     H(n, FU, "C14", ["C14", "C15"], "thorough", w + "; preemption sites = every shim operation except plain loads (lock, parked-list push, notify, stores, read-modify-writes); parked-and-never-notified oracle at quiescence",
       "depth 1, budget 1, 1 op per site", rules=FUTRULES)
+for n, w in (("c14_bc_two_sender_drops", "broadcast N=1"), ("c14_mp_two_sender_drops", "mpmc N=2")):
+    H(n, FU, "C07", ["C07", "C14", "C12", "C15"], "thorough",
+      w + ": a stream task is parked on the empty, lapped queue; the last TWO sender handles are dropped concurrently: the whole drop of tx1 runs at the k-th shared-memory operation of the drop of tx0, for every k = 1..10 (forced-site loop; the witness shows that 10 is more than the drop has); the parked task must have been notified (otherwise the end of the stream is never reported)",
+      "sequential set-up, 10 forced sites, nothing else symbolic", rules=FUTRULES + [(r' @ src/scen_fut', 12)],
+      optional_covers=["the task parked", "an operation ran at a preemption point", "the sink task was polled again while the stream was being removed", "the parked sink task was notified by the removal"])
 for n, w, t in (("c15_bc_hist", "broadcast N=1 spins(0,0)", "quick"), ("c15_mp_hist", "mpmc N=2 spins(0,0)", "quick"),
                 ("c15_bc10_hist", "broadcast N=2 spins(1,0)", "thorough")):
     H(n, FU, "C15", ["C15", "C09"], t, "every sub-sequence of the 10-call skeleton start_send start_send try_recv start_send try_send poll_complete poll poll drop_tx poll (after a concrete warm-up that fills the ring, parks once and drains) inside a task vs the model: " + w,
@@ -513,12 +533,12 @@ QUICK = {
     "C04": ["c04_bc_shared_inclone", "c04_bc_streams_inclone", "c04_bc_view_inview"],
     "C05": ["c04_mp_view_inview", "c05_seq_bc_n2_streams", "c05_seq_bc_n1_shared", "c05_seq_mp_n2_shared", "c05_mp_shared_all"],
     "C06": ["t4_mp_n1_o0", "t3_bc_n2_o0", "t2_bc_n2_o0", "c06_bc_sibdrop_forced", "c06_bc_sibdrop_forced_n1"],
-    "C07": ["c07_mp_one_o1", "c07_bc_view_o1", "c07_mp_view_o1"],
+    "C07": ["c07_mp_one_o1", "c07_bc_view_o1", "c07_mp_view_o1", "c14_bc_two_sender_drops", "c14_mp_two_sender_drops"],
     "C08": ["c08_mp_blk00_send_lap", "c08_mp_blk00_drop_lap", "c08_mp_blk00_drop"],
     "C09": ["c09_mp_a1", "c09_bc_a2", "c09_mp_a3", "c09_mp_a4", "c09_bc_a5", "c09_bc_a2w", "c09_mp_a1w", "c09_bc_a5w"],
-    "C10": ["c10_bc_sole_o1", "c10_bc_sib_o1"],
-    "C11": ["c11_bc_drop_last_o1", "c11_bc_unsub_last_o1", "c11_bc_unsub_nonlast_o1"],
-    "C12": ["c12_mp_consumers2a", "c12_mp_consumers2b", "c12_mp_senders2a", "c12_mp_senders2b"],
+    "C10": ["c10_bc_sole_o1", "c10_bc_sib_o1", "c10_bc_addadd_sitesq"],
+    "C11": ["c11_bc_drop_last_o1", "c11_bc_unsub_last_o1", "c11_bc_unsub_nonlast_o1", "c11_bc_bothhandles_sitesq", "c11_bc_droprace_sitesq", "c11_bc_addrace_sitesq"],
+    "C12": ["c12_mp_consumers2a", "c12_mp_consumers2b", "c12_mp_senders2a", "c12_mp_senders2b", "c12_bc_sibdrop_forced"],
     "C13": ["c13_mp_one", "c13_mp_two_handles", "c13_bc_two_streams", "c13_bc_two_handles", "c13_bc_two_streams_rx0first"],
     "C14": ["c14_mp_send_vs_tryrecv", "c14_bc_drop_stream_repoll", "c14s_mp_poll_o1_vs_send"],
     "C15": ["c15_bc_hist6", "c15_mp_hist6", "c15_mp_hist8", "c15_mpfut_direct_recv", "c15_bcfut_direct_recv_drop", "c15_bc_fresh_poll"],
